@@ -114,7 +114,7 @@ Next == /\ Len(hist) < MaxOps
                                /\ list' = s.list /\ iv' = s.iv /\ tag' = tag + 1
                                /\ hist' = Append(hist, o)
 Spec == Init /\ [][Next]_vars
-View == <<list, iv>>
+View == <<list, iv, Len(hist)>>
 Emit == PrintT(<<"GEN", ToJson([ops |-> hist])>>)
 
 (* laws of the layout, for every reachable builder state, both kinds of total, every stream length *)
